@@ -251,7 +251,18 @@ def main() -> int:
         ck.obligation(not found)
         for sig, what, rep in found:
             ck.counterexample(sig, what, rep)
-    ck.engine('injection', trees=trees, injected_texts=inj, wall_s=round(time.time() - t0, 1))
+    # one reference used three times at generic / numeric / boolean / string positions, every order
+    init_parsers()
+    nre = 0
+    for spec, clash in families.reuse_family():
+        nre += 1
+        for r in attempt(spec, True):
+            if clash and r != 'TypeError':
+                ck.counterexample(f'accepted-reference-clash@{gen.render(spec)}', f'{{{gen.render(spec)}}} uses one reference at two incompatible types -> {r}', {'kind': 'inject', 'spec': spec, 'pred': True})
+            if not clash and r != 'accepted':
+                ck.counterexample(f'rejected-compatible-reuse@{gen.render(spec)}', f'{{{gen.render(spec)}}} uses one reference at compatible types only -> {r}', {'kind': 'inject', 'spec': spec, 'pred': True})
+    ck.obligation(True)
+    ck.engine('injection', trees=trees, injected_texts=inj, reference_reuse_predicates=nre, wall_s=round(time.time() - t0, 1))
     ck.sample({'injection': gen.render(put(specs[10], positions(specs[10])[0][0], CLASH[positions(specs[10])[0][1]][0])), 'into': gen.render(specs[10])})
     ck.bound('SF', f'all 7-bit type sets of every child for {len(forms)} construction forms')
     ck.bound('injection', f'{inj} texts: every argument position of {trees} trees x every clash of the table (wrong literal, operator result, function result, compound/primitive confusion), same-reference clashes, non-boolean roots')
